@@ -1,7 +1,108 @@
-//! ChandeKrollStop — reference model (TODO).
+//! ChandeKrollStop. Doc: 3 values — `stop long`, `source` value, `stop short`; linked formula
+//! (tradingview), p = period of `ma`:
+//!   first high stop = highest(high, p) − x · ATR(p),  first low stop = lowest(low, p) + x · ATR(p),
+//!   ATR = MA(true range);
+//!   stop short = highest(first high stop, q),  stop long = lowest(first low stop, q).
+//! 2 signals:
+//!   #0 relative position of the source between `stop long` and `stop short`: source above
+//!      `stop short`: full buy; source below `stop long`: full sell.
+//!   #1 only when `stop long` crosses `stop short` upwards: cumulative move of both stops upwards:
+//!      full buy, downwards: full sell.
 use super::*;
 
-/// returns None until the reference is written
-pub fn make(_cfg: &Cfg, _c0: &RC) -> Option<Box<dyn IndRef>> {
-	None
+#[derive(Clone)]
+pub struct ChandeKrollStop {
+	src: String,
+	x: f64,
+	prev_close: f64,
+	atr: Box<dyn rm::RefVV>,
+	hh: Ext,
+	ll: Ext,
+	high_stops: rm::Sel,
+	low_stops: rm::Sel,
+	cross: CrossD,
+	prev_short: f64,
+	prev_long: f64,
+}
+
+pub fn make(cfg: &Cfg, c0: &RC) -> Option<Box<dyn IndRef>> {
+	let (_, p) = cfg.ma("ma");
+	let q = cfg.int("q");
+	let x = cfg.float("x");
+	// constant prehistory: true range of the first candle against its own close; both first stops constant
+	let tr0 = c0.tr(c0.c);
+	let hs0 = Q::exact(c0.h) - tr0.scale(x);
+	let ls0 = Q::exact(c0.l) + tr0.scale(x);
+	Some(Box::new(ChandeKrollStop {
+		src: cfg.src("source"),
+		x,
+		prev_close: c0.c,
+		atr: cfg.ma_ref("ma", tr0),
+		hh: Ext::new(p, c0.h),
+		ll: Ext::new(p, c0.l),
+		high_stops: rm::Sel::new_q(q, hs0),
+		low_stops: rm::Sel::new_q(q, ls0),
+		// previous difference `stop long` − `stop short` and previous stops of the prehistory
+		cross: CrossD::new(ls0.v - hs0.v),
+		prev_short: hs0.v,
+		prev_long: ls0.v,
+	}))
+}
+
+/// `Action::from(ratio)`; a strength that falls on a rounding boundary (k + 1/2) is not determined
+fn ratio_sig(x: f64) -> Sig {
+	let y = x.abs().min(1.0) * 255.0;
+	if (y - y.floor() - 0.5).abs() < 1e-9 {
+		return Sig::Any;
+	}
+	sig_ratio(x)
+}
+
+impl IndRef for ChandeKrollStop {
+	fn values(&mut self, c: &RC) -> Vec<Q> {
+		let tr = c.tr(self.prev_close);
+		self.prev_close = c.c;
+		let off = self.atr.stepq(tr).scale(self.x);
+		self.hh.push(c.h);
+		self.ll.push(c.l);
+		self.high_stops.pushq(Q::exact(self.hh.highest()) - off);
+		self.low_stops.pushq(Q::exact(self.ll.lowest()) + off);
+		let stop_short = Q::new(self.high_stops.highest(), self.high_stops.rad());
+		let stop_long = Q::new(self.low_stops.lowest(), self.low_stops.rad());
+		vec![stop_long, source(c, &self.src), stop_short]
+	}
+	fn signals(&mut self, _c: &RC, own: &[f64]) -> Vec<Sig> {
+		let (long, src, short) = (own[0], own[1], own[2]);
+		let s0 = if short != long && (short - long).abs() <= 16.0 * crate::eps() * short.abs().max(long.abs()) {
+			// the stops differ by rounding only: their order (and the position between them) is not determined
+			Sig::Any
+		} else if short > long {
+			// position between the stops: `stop long` -> full sell, `stop short` -> full buy (beyond: clamped)
+			ratio_sig((src - long) / (short - long) * 2.0 - 1.0)
+		} else if short == long {
+			// † follows the implementation: both stops coincide -> zero strength
+			sig_ratio(0.0)
+		} else if src > long {
+			// stops in reverse order, source above both: "above `stop short`" holds, "below `stop long`" does not
+			Sig::S(255)
+		} else if src < short {
+			// source below both
+			Sig::S(-255)
+		} else if src.is_nan() || short.is_nan() || long.is_nan() {
+			Sig::None
+		} else {
+			// stops in reverse order and the source between them: above `stop short` AND below `stop long`
+			Sig::Any
+		};
+		// `stop long` crosses `stop short` upwards
+		let crossed = self.cross.above(long, short);
+		// † follows the implementation: ending exactly ON `stop short` does not count, `stop long` has to end above it
+		let crossed = crossed && long > short;
+		let mv = (short - self.prev_short) + (long - self.prev_long);
+		self.prev_short = short;
+		self.prev_long = long;
+		let s1 = if crossed { sig_sign((mv > 0.0) as i32 - (mv < 0.0) as i32) } else { Sig::None };
+		vec![s0, s1]
+	}
+	indref!(ChandeKrollStop);
 }
